@@ -184,7 +184,7 @@ func (r *propRun) exec() int {
 	}
 	solver := smt.NewSolver(timeout, cache)
 	solver.RLimit = rlimit
-	solver.CandRLimit = 8_000_000
+	solver.CandRLimit = 24_000_000
 	solver.Confirm = r.tier == "thorough"
 	runner := &Runner{Solver: solver, Workers: runtime.NumCPU()}
 	if r.update {
